@@ -6,6 +6,7 @@ import Proofs.ProbingBuildBlank
 import Proofs.ProbingBuildRepG
 import Proofs.ProbingBuildBlank2
 import Proofs.ProbingBuildChainStep
+import Proofs.ProbingBuildChainSem
 import Properties.C03
 /-! C03/C01 — the probing *builder* inside the model (`Model/ProbingBuild.lean` = lm/search_hashed.cc ReadNGrams,
 FindLower, AdjustLower, MarkLower, activate, unigram sign fix, missing-`<unk>` fix-up).
@@ -198,14 +199,61 @@ theorem probing_end_to_end_single (combine : Nat → Word → Nat) (a : Arpa) (n
   obtain ⟨s, Mmid, Mlong, hb, rep⟩ := probing_build_represents_single combine a nWords buckets um ok hcls hsorted hdist hinj hcaps
   exact ⟨s, hb, KV.C03.probing_prob a ok.wf (fun _ => false) combine _ Mmid Mlong rep inj h st sf w hw⟩
 
-/-- the full statement (NOT proved for models with blank chains of length ≥ 2): the built structure represents `Table.build a` -/
+/-- **`probing_build_represents`** — every loadable proper ARPA, blank chains of any length and any basis.  Hypotheses:
+`ArpaOK'` (well-formed; probabilities ≤ 0 including the backed-off products, `proper`; vocabulary = unigram lines; words
+of n-grams are unigrams; the `<unk>` fix-up convention; `unkBasis`: no blank is based on a hallucinated `<unk>`, the
+class of the known finding `blank-based-on-hallucinated-unk`), the file's order of n-gram sections, distinct n-grams,
+injectivity of the 64-bit hash on the keys of one order, and bucket counts above the final entry counts (real + blanks)
+— the conditions under which the real loader returns without an exception.  Conclusion: `build` returns `.ok s` and
+`s` **represents** `Table.build a`: every key (real n-gram or hallucinated blank) is found with the probability,
+back-off, sign bit (`independent_left`) and extension bit `Table.build a` prescribes, and nothing else is found.
+The per-line step is `stepAll`: closed lines by `invG_step_closed`, lines with `L ≥ 1` missing suffixes by `step_chain`
+(loop lemmas `findLower_chain`, `fillBlanks_chain`, `markChain_chain`, `adjustLower_chain`; key-level `CH.chain_sem`). -/
+theorem probing_build_represents (combine : Nat → Word → Nat) (a : Arpa) (nWords : Nat) (buckets : List Nat) (um : Rat)
+    (ok : ArpaOK' a nWords um)
+    (hsorted : (ngramLines a).Pairwise (fun p q => p.1.length ≤ q.1.length))
+    (hdist : (a.entries.map (·.1)).Nodup)
+    (hinj : ∀ k k', IsKey a k → IsKey a k' → k.length = k'.length → hashOf combine k = hashOf combine k' → k = k')
+    (hcaps : ∀ m, (keysOf (foldKeys [] (ngramLines a)) m).length < capOf buckets m) :
+    ∃ s Mmid Mlong, build combine false a nWords buckets um = .ok s ∧
+      Represents combine (toPLM false a.order s) (Table.build a) Mmid Mlong :=
+  build_represents_of_step combine a nWords buckets um ok (fun _ => True)
+    (stepAll combine a nWords um ok (capOf buckets)) (fun _ _ => trivial) hsorted hdist hinj hcaps
+
+/-- **`probing_end_to_end`** — unconditional beyond `ArpaOK'`, section order, distinct n-grams, hash injectivity and
+capacity: the structure the builder produces answers every `FullScore` with the ARPA recursion `score a h w`
+(composition of `probing_build_represents`, `probing_refines` and `fullScore_prob`). -/
+theorem probing_end_to_end (combine : Nat → Word → Nat) (a : Arpa) (nWords : Nat) (buckets : List Nat) (um : Rat)
+    (ok : ArpaOK' a nWords um)
+    (hsorted : (ngramLines a).Pairwise (fun p q => p.1.length ≤ q.1.length))
+    (hdist : (a.entries.map (·.1)).Nodup)
+    (hinj : ∀ k k', IsKey a k → IsKey a k' → k.length = k'.length → hashOf combine k = hashOf combine k' → k = k')
+    (hcaps : ∀ m, (keysOf (foldKeys [] (ngramLines a)) m).length < capOf buckets m)
+    (inj : HashInjective combine (Table.build a))
+    (h : List Word) (st : State) (sf : StateFor a h st) (w : Word) (hw : a.gram [w] ≠ none) :
+    ∃ s, build combine false a nWords buckets um = .ok s ∧
+      (fullScore (KV.ProbingLM.search combine (toPLM false a.order s)) st w).1.prob = score a h w := by
+  obtain ⟨s, Mmid, Mlong, hb, rep⟩ := probing_build_represents combine a nWords buckets um ok hsorted hdist hinj hcaps
+  exact ⟨s, hb, KV.C03.probing_prob a ok.wf (fun _ => false) combine _ Mmid Mlong rep inj h st sf w hw⟩
+
+/-- the conclusion of `probing_build_represents` with the default `unknown_missing_logprob = -100` (kept as the
+hypothesis of the older `probing_end_to_end_partial`) -/
 def ProbingBuildRepresents (combine : Nat → Word → Nat) (a : Arpa) (nWords : Nat) (buckets : List Nat) : Prop :=
   ∃ s Mmid Mlong, build combine false a nWords buckets = .ok s ∧
     Represents combine (toPLM false a.order s) (Table.build a) Mmid Mlong
 
-/-- `probing_end_to_end`, **partial**: *given* `ProbingBuildRepresents` for the model at hand (proved only as far as
-`build_bigram` goes; checked at run time for every generated model, flag `prep`, and entry by entry against the real
-structure), every `FullScore` over the structure the builder produced equals the ARPA recursion — no hypothesis
+/-- `ProbingBuildRepresents` is a theorem now -/
+theorem probingBuildRepresents_holds (combine : Nat → Word → Nat) (a : Arpa) (nWords : Nat) (buckets : List Nat)
+    (ok : ArpaOK' a nWords (-100))
+    (hsorted : (ngramLines a).Pairwise (fun p q => p.1.length ≤ q.1.length))
+    (hdist : (a.entries.map (·.1)).Nodup)
+    (hinj : ∀ k k', IsKey a k → IsKey a k' → k.length = k'.length → hashOf combine k = hashOf combine k' → k = k')
+    (hcaps : ∀ m, (keysOf (foldKeys [] (ngramLines a)) m).length < capOf buckets m) :
+    ProbingBuildRepresents combine a nWords buckets :=
+  probing_build_represents combine a nWords buckets (-100) ok hsorted hdist hinj hcaps
+
+/-- `probing_end_to_end`, older conditional form (superseded by `probing_end_to_end`): *given*
+`ProbingBuildRepresents` for the model at hand, every `FullScore` over the structure the builder produced equals the ARPA recursion — no hypothesis
 about the structure other than that one is left (composition of `probing_refines` and `fullScore_prob`). -/
 theorem probing_end_to_end_partial (combine : Nat → Word → Nat) (a : Arpa) (wf : WellFormed a) (nWords : Nat) (buckets : List Nat)
     (hrep : ProbingBuildRepresents combine a nWords buckets) (inj : HashInjective combine (Table.build a))
